@@ -39,6 +39,34 @@ def fallback_for(i):
     return 0x001000 + 0x2F1 * i
 
 
+FORMS = ["list", "tuple", "set", "frozenset", "iterator", "generator", "dict-keys", "range-if-contiguous", "reversed"]
+
+
+def as_form(permitted, form):
+    """The permitted set handed over as one of the iterables a caller may reasonably use
+    (the docstring says only "the specified addresses")."""
+    if permitted is None:
+        return None
+    p = list(permitted)
+    if form == "tuple":
+        return tuple(p)
+    if form == "set":
+        return set(p)
+    if form == "frozenset":
+        return frozenset(p)
+    if form == "iterator":
+        return iter(p)
+    if form == "generator":
+        return (a for a in p)
+    if form == "dict-keys":
+        return dict.fromkeys(p).keys()
+    if form == "reversed":
+        return reversed(p[::-1])
+    if form == "range-if-contiguous" and p and p == list(range(p[0], p[0] + len(p))):
+        return range(p[0], p[0] + len(p))
+    return p
+
+
 def run_case(case):
     sequences, exc = _load()
     units = []
@@ -66,7 +94,7 @@ def run_case(case):
         "None" if permitted is None else permitted, readdress, dry, n, before if n <= 12 else str(before[:12]) + "...")
     raised = None
     try:
-        bus.run(sequences.Commissioning(available_addresses=None if permitted is None else list(permitted),
+        bus.run(sequences.Commissioning(available_addresses=as_form(permitted, case.get("permitted_form", "list")),
                                         readdress=readdress, dry_run=dry))
     except NonTermination:
         return [("C07:nontermination", "%s: more than %d commands (bound for this population)" % (where, cap))]
@@ -156,6 +184,8 @@ def features(case):
         f.append("duplicate-initial-addresses")
     if any(u.get("state") for u in case["units"]):
         f.append("gear-left-in-initialisation-mode")
+    if case["permitted"] is not None:
+        f.append("permitted-given-as:" + case.get("permitted_form", "list"))
     return f
 
 
@@ -190,6 +220,13 @@ def case_strategy(draw):
     else:
         permitted = draw(st.permutations(list(range(64))))
     case = {"units": units, "permitted": permitted, "readdress": readdress, "dry_run": dry}
+    if permitted is not None:
+        if draw(st.integers(0, 7)) == 0:
+            lo = draw(st.integers(0, 63))
+            case["permitted"] = permitted = list(range(lo, draw(st.integers(lo, 64))))
+            case["permitted_form"] = "range-if-contiguous"
+        else:
+            case["permitted_form"] = draw(st.sampled_from(FORMS))
     # optional faulty unit - only where it is certain to be programmed and nothing clashes
     if n and not dry and draw(st.integers(0, 5)) == 0:
         part = [i for i in range(n) if readdress or units[i]["short"] is None]
